@@ -1,4 +1,4 @@
-(* Proofs/PhaseSort.v -- C15: argsort / sort of the model (stable insertion by the key (rounded cycle, remainder), the order
+(* Proofs/PhaseSort.v -- C15: argsort / sort of the model (stable insertion by the key (count, fraction), the order
    np.lexsort produces) return a PERMUTATION of the indices, sorted by that key; and a smaller rounded cycle implies a strictly
    smaller exact value (monotone rounding), so elements whose rounded cycles differ are in exact order. *)
 From Coq Require Import ZArith Reals Psatz Floats Bool List Lia Sorting.Permutation Sorting.Sorted.
@@ -96,7 +96,7 @@ Lemma insert_stable_is_ins x : forall l, insert_stable x l = ins key key_le x l.
 Proof. induction l as [|y r IH]; cbn [insert_stable ins]; [reflexivity|]. rewrite IH. reflexivity. Qed.
 
 Definition keyed (l : list ph) : list key :=
-  map (fun ip => (cycle (snd ip), remainder (snd ip), fst ip)) (combine (seq 0 (length l)) l).
+  map (fun ip => (p_int (snd ip), p_frac (snd ip), fst ip)) (combine (seq 0 (length l)) l).
 
 Lemma argsort_is l : argsort l = map (fun k : key => snd k) (isort key key_le (keyed l)).
 Proof.
@@ -114,7 +114,7 @@ Qed.
 Theorem argsort_perm l : Permutation (argsort l) (seq 0 (length l)).
 Proof. rewrite argsort_is, <- keyed_idx. apply Permutation_map. apply isort_perm. Qed.
 
-(* sorted by (rounded cycle, remainder) whenever these keys are finite doubles *)
+(* sorted by (count, fraction) whenever these are finite doubles *)
 Theorem argsort_sorted l : Forall good_key (keyed l) ->
   StronglySorted (fun a b => key_le a b = true) (isort key key_le (keyed l)).
 Proof. intros G. apply (isort_sorted key key_le good_key key_le_total key_le_trans). exact G. Qed.
